@@ -43,7 +43,9 @@ void pkt_to_ogg(const pkt_t *p, ogg_packet *op);
 /* ---------- signals ---------- */
 enum { SIG_SILENCE=0, SIG_DC, SIG_TONE, SIG_MULTI, SIG_NOISE, SIG_CLICKS, SIG_SWEEP,
        SIG_OVER, SIG_DENORM, SIG_ALT, SIG_BURSTS, SIG_IMPULSE, SIG_ENDCLICK,
-       SIG_GATED /* multi-tones, each channel digitally silent in its own segments */, SIG_WIDE /* per-channel partials up to 0.42*rate */, SIG_NKINDS };
+       SIG_GATED /* multi-tones, each channel digitally silent in its own segments */, SIG_WIDE /* per-channel partials up to 0.42*rate */,
+       SIG_ONSET /* digital silence everywhere, then a loud noise burst in ONE channel (see sig_onset_params) */, SIG_NKINDS };
+void sig_onset_params(uint64_t seed,int channels,long nsamples,int *burst_channel,long *onset);
 #define SIG_NCLASSIC 13   /* kinds drawn by gen_chain (kept fixed so that adding kinds does not reshuffle existing workloads) */
 float sig_sample(int kind, uint64_t seed, int ch, long i, long rate, long nsamples);
 const char *sig_name(int kind);
@@ -62,6 +64,7 @@ typedef struct {
   int have_rm2; double rm2_reservoir_bits_secs; double rm2_bias; double rm2_damping; /* RATEMANAGE2 override */
   int sig; uint64_t sigseed; long nsamples;
   int chunk; int lazy;
+  int direct;               /* unmanaged only: take packets from vorbis_analysis(vb,&op) instead of addblock/flushpacket */
   const char *const *comments; int ncomments;
 } enccfg_t;
 typedef struct {
@@ -81,6 +84,7 @@ void enccfg_json(const enccfg_t *c, char *out, size_t n);
 /* ---------- Ogg muxing / scanning ---------- */
 enum { PAGE_DEFAULT=0, PAGE_FLUSH_EACH, PAGE_FILL, PAGE_RANDOM, PAGE_NKINDS };
 void mux_stream(const pktlist_t *pk, int serial, int policy, int fill, uint64_t seed, buf_t *out);
+void mux_stream_off(const pktlist_t *pk, int serial, int policy, int fill, uint64_t seed, long goffset, buf_t *out);
 typedef struct {
   long off, len; int serial; ogg_int64_t granule; int bos, eos, continued, packets; long pageno;
 } pageinfo_t;
@@ -91,14 +95,17 @@ int  page_scan(const unsigned char *d, size_t n, pageinfo_t **out); /* returns c
 typedef struct {
   int nlinks; enccfg_t cfg[VH_MAXLINKS]; int serial[VH_MAXLINKS]; int policy[VH_MAXLINKS]; int fill[VH_MAXLINKS];
   uint64_t muxseed;
+  long goffset[VH_MAXLINKS];   /* added to every granule position of the link (a stream cut out of a longer one starts above zero) */
 } chaindesc_t;
 /* flags for gen_chain */
 #define GC_ALLOW_EMPTY 1   /* links with 0 samples / tiny links */
 #define GC_MULTICH     2   /* 3..8 channel links occasionally */
 #define GC_MANAGED     4   /* managed-mode links occasionally */
+#define GC_GOFFSET    16   /* some links start at a non-zero granule position */
 #define GC_BIGPAGES    8   /* occasionally a many-channel high-quality link whose pages approach 64 KiB */
 void gen_chain(rng_t *r, int maxlinks, long maxN, int flags, chaindesc_t *d);
-int  build_chain(const chaindesc_t *d, buf_t *out, size_t *link_off /*nlinks+1 or NULL*/);
+int  build_chain(chaindesc_t *d, buf_t *out, size_t *link_off /*nlinks+1 or NULL*/);   /* may reset d->goffset[i] (see vh_mux_link) */
+void vh_mux_link(const pktlist_t *pk, chaindesc_t *d, int i, buf_t *out);
 void chain_describe(const chaindesc_t *d, char *out, size_t n);
 
 /* ---------- in-memory data source with read schedules, faults and a budget ---------- */
